@@ -138,7 +138,7 @@ def write_inputs(d, inputs, prefix="in"):
     return names
 
 
-def run_inproc(d, files, listing_seed=None):
+def run_inproc(d, files, listing_seed=None, extra=()):
     import req_compile.cmdline as C
     import req_compile.repos.findlinks as FL
     GLOBAL = {}
@@ -159,7 +159,7 @@ def run_inproc(d, files, listing_seed=None):
     try:
         with contextlib.redirect_stdout(out), contextlib.redirect_stderr(err):
             try:
-                C.compile_main(list(files) + ["--find-links", "links", "--no-index", "--hashes"])
+                C.compile_main(list(files) + ["--find-links", "links", "--no-index", "--hashes"] + list(extra))
             except SystemExit as ex:
                 code = ex.code if isinstance(ex.code, int) else 1
             except Exception as ex:
@@ -230,6 +230,12 @@ class CliVariants(Stream):
                 nm = re.match(r"^[A-Za-z0-9._-]+", rng.choice(rs)).group(0)
                 rs.extend(nm + b for b in rng.sample(harmless, rng.randint(2, 4)))
             case["several_bounds"] = True
+        if rng.random() < 0.5:
+            # one project (preferably one whose name has more than one spelling) is later released with -P; it has an older
+            # version the first solve may have pinned ... or not: both are fine, the spellings must agree with each other
+            names = sorted(case["universe"])
+            multi = [n for n in names if any(ch in "-_." for ch in n)]
+            case["release"] = rng.choice(multi if multi and rng.random() < 0.8 else names)
         case["vseed"] = rng.randint(1, 10 ** 6)
         return case
 
@@ -277,6 +283,23 @@ class CliVariants(Stream):
                 V["hashseed-%s" % ("r" if seed > 2 else seed)] = run_subproc(d, files, seed)
             except subprocess.TimeoutExpired:
                 V["hashseed-%s" % seed] = {"code": "timeout", "stdout": ""}
+        # the output fed back as the prior solution, one project released for upgrade - named as the user may type it
+        if base["code"] == 0 and case.get("release"):
+            rel = case["release"]
+            pinned = {GL.norm(m.group(1)) for m in re.finditer(r"^([A-Za-z0-9._-]+)==", base["stdout"], re.M)}
+            if GL.norm(rel) in pinned:
+                with open(os.path.join(d, "prior.txt"), "w") as f:
+                    f.write(base["stdout"])
+                # ... and the directory has gained a newer release of it since
+                B.write_findlinks(os.path.join(d, "links"), {B.wheel_name(rel, "9.0"): B.wheel_bytes(rel, "9.0")})
+                spellings = [rel] + sorted({rel.upper(), rel.replace("-", "_").replace(".", "_"), rel.replace("_", "-").replace(".", "-"),
+                                            rel.replace("-", ".").replace("_", ".")} - {rel})
+                outs = []
+                for sp in spellings:
+                    GL.reset_caches()
+                    outs.append(run_inproc(d, files, extra=["--solution", "prior.txt", "-P", sp]))
+                V["released-canonical"] = outs[0]
+                out["released_spellings"] = [[sp, o] for sp, o in zip(spellings, outs)]
         shutil.rmtree(d, ignore_errors=True)
         return out
 
@@ -288,6 +311,8 @@ class CliVariants(Stream):
             fl.append("two-builds-with-several-platform-tags")
         if case.get("several_bounds"):
             fl.append("one-requirer-several-bounds-on-one-project")
+        if r.get("released_spellings"):
+            fl.append("prior-solution-and-released-project-in-%d-spellings" % len(r["released_spellings"]))
         if len(case["inputs"]) > 1:
             fl.append("two-input-files")
         if any(len(rs) > 1 for rs in case["inputs"]):
@@ -315,7 +340,15 @@ class CliVariants(Stream):
     def oracle(self, case, r):
         base = r["base"]
         fails = []
+        sp = r.get("released_spellings")
+        if sp:
+            for name, o in sp[1:]:
+                if o["code"] != sp[0][1]["code"] or o["stdout"] != sp[0][1]["stdout"]:
+                    fails.append(("C07/output-differs/released-name-spelling", {"typed": [sp[0][0], name], "first": sp[0][1]["stdout"], "other": o["stdout"]}))
+                    break
         for name, v in r["variants"].items():
+            if name == "released-canonical":
+                continue
             if v["code"] != base["code"]:
                 fails.append(("C07/exit-status-differs/" + name.split("-")[0] if name.startswith("hashseed") else "C07/exit-status-differs/" + name,
                               {"variant": name, "base": base["code"], "got": v["code"], "stderr": v.get("stderr_tail")}))
